@@ -24,6 +24,9 @@ func NewTextOutputFileCursor(filename string) (*TextOutputFileCursor, error) {
 		fh := os.Stdout
 		var err error
 		if len(filename) > 0 {
+			if err = verifPoint("open", filename); err != nil {
+				return nil, err
+			}
 			fh, err = os.OpenFile(filename, os.O_RDWR|os.O_TRUNC|os.O_CREATE, 0666)
 			if nil != err {
 				return nil, err
@@ -39,6 +42,9 @@ func NewTextOutputFileCursor(filename string) (*TextOutputFileCursor, error) {
 
 func (toc *TextOutputFileCursor) Println(line string) {
 	toc.lineno++
+	if !toc.pretend && toc.err == nil && len(toc.filename) > 0 {
+		toc.err = verifPoint("write", toc.filename)
+	}
 	if !toc.pretend && toc.err == nil {
 		_, toc.err = fmt.Fprintln(toc.fh, line)
 	}
@@ -47,6 +53,9 @@ func (toc *TextOutputFileCursor) Println(line string) {
 
 func (toc *TextOutputFileCursor) Printf(msg string, parms...interface{}) {
 	toc.lineno++
+	if !toc.pretend && toc.err == nil && len(toc.filename) > 0 {
+		toc.err = verifPoint("write", toc.filename)
+	}
 	if !toc.pretend && toc.err == nil {
 		_, toc.err = fmt.Fprintf(toc.fh, msg, parms...)
 	}
